@@ -94,6 +94,9 @@ func c17iDraw(rt *rapid.T) *c17iCase {
 	pool := []spec{{"", "alpha/aa"}, {"", "beta/bb"}, {"dd", "delta/dd"}, {"", "eps/ee"}, {"", "gamma/cc"}, {"_", "omega/ff"}, {".", "psi/gg"}}
 	first := rapid.IntRange(0, len(pool)-1).Draw(rt, "first")
 	nSpecs := rapid.IntRange(1, min(5, len(pool)-first)).Draw(rt, "nSpecs")
+	if rapid.IntRange(0, 7).Draw(rt, "noImports") == 0 {
+		nSpecs = 0 // a file without imports: the patch adds the first one
+	}
 	specs := pool[first : first+nSpecs]
 	render := func(s spec) string {
 		if s.name != "" {
@@ -146,8 +149,14 @@ func c17iDraw(rt *rapid.T) *c17iCase {
 	fmt.Fprintf(&b, "// g is not touched. %s\nfunc g() {\n\tkeep() // %s\n}\n", tok("func-doc", ""), tok("func-inner", ""))
 	cs.File = b.String()
 
-	tg := specs[rapid.IntRange(0, len(specs)-1).Draw(rt, "target")]
-	switch rapid.IntRange(0, 5).Draw(rt, "op") {
+	var tg spec
+	op := rapid.IntRange(0, 5).Draw(rt, "op")
+	if len(specs) > 0 {
+		tg = specs[rapid.IntRange(0, len(specs)-1).Draw(rt, "target")]
+	} else if op <= 2 {
+		op = 3 + op%2 // nothing to delete or replace: add
+	}
+	switch op {
 	case 0, 1:
 		cs.Op, cs.Target = "delete-import", tg.path
 		cs.Patch = "@@\n@@\n-import " + render(tg) + "\n\n foo()\n"
@@ -296,6 +305,15 @@ func c17iJudge(cs *c17iCase, out string) (found []c17iFinding) {
 		l := strings.TrimSpace(lines[i])
 		detached := func(why string) {
 			add("import-section:detached:"+c.Kind, fmt.Sprintf("the %s comment %s (attached to %q) is now %s: line %q\n%s", c.Kind, c.Tok, c.Path, why, lines[i], show()))
+		}
+		switch c.Kind {
+		case "func-doc", "spec-doc", "decl-doc", "pkg-doc", "header", "cgo-preamble":
+			// a comment that stood on lines of its own does not end up
+			// behind code
+			if !strings.HasPrefix(l, "//") {
+				detached("at the end of a line of code")
+				continue
+			}
 		}
 		switch c.Kind {
 		case "pkg-trailing":
